@@ -71,6 +71,12 @@ def area2_code(r):
     return sum(vals)
 
 
+def _same_arr(a, b):
+    a = np.asarray(a, dtype='float64')
+    b = np.asarray(b, dtype='float64')
+    return a.shape == b.shape and bool(np.all((a == b) | (np.isnan(a) & np.isnan(b))))
+
+
 def polygons_of(kind, el):
     """the polygons (lists of rings) of a decoded element"""
     if el is None:
@@ -97,6 +103,13 @@ def check_oriented(rep, batch, kind, st, els, nder=0, desc=None, intersections=F
     if desc is None:
         arr, desc = G.derive(rng, arr, nder)
     meta = {'kind': kind, 'subtype': st, 'elements': els, 'derivation': desc}
+    if desc:
+        rep.count('derived')
+    check_oriented_arr(rep, batch, kind, st, arr, meta, intersections)
+
+
+def check_oriented_arr(rep, batch, kind, st, arr, meta, intersections=False):
+    """all C15 checks on one real array (however it was obtained)"""
     if str(U.pa_of(arr).type) == 'null':
         rep.count('null_typed_skipped')
         return
@@ -107,18 +120,23 @@ def check_oriented(rep, batch, kind, st, els, nder=0, desc=None, intersections=F
         return
     rep.evaluations += 1
     rep.count(kind)
-    if desc:
-        rep.count('derived')
     if U.pa_of(arr).offset:
         rep.count('nonzero_offset')
     before = U.buffers_bytes(arr)
     dec = U.decode(arr)
     try:
+        area0 = np.array(arr.area)
         o1 = arr.oriented()
         o2 = o1.oriented()
+        o1b = arr.oriented()          # the input stays usable: orienting it again gives the same
+        area1 = np.array(arr.area)
     except Exception as e:
-        rep.violation(f'raises:{kind}-oriented:{type(e).__name__}', f'oriented() raised: {e}'[:300], meta)
+        rep.violation(f'raises:{kind}-oriented:{type(e).__name__}', 'oriented() raised', meta)
         return
+    if not U._nan_eq(U.decode(o1b), U.decode(o1)) or not _same_arr(area0, area1):
+        rep.violation(f'oriented-input-state:{kind}',
+                      'calling oriented() changed what the input object answers (second oriented() '
+                      'or .area differ)', meta)
     # ---- input unchanged
     if U.buffers_bytes(arr) != before or not U._nan_eq(U.decode(arr), dec):
         rep.violation(f'oriented-mutates-input:{kind}', 'oriented() changed the buffers of its input', meta)
@@ -441,6 +459,95 @@ def _close(e):
     return list(e) + list(e[:2]) if len(e) >= 2 else list(e)
 
 
+# ---------------------------------------------------------------------------
+# histories: arrays assembled from already-oriented and un-oriented pieces
+# ---------------------------------------------------------------------------
+HISTORY_VARIANTS = ['concat:oA+B', 'concat:B+oA', 'concat:oA+B+oA', 'pd.concat:oA+B', 'dask:oA+B',
+                    'dask.concat:oA+B', 'concat:oA+B:slice1', 'concat:oA+B:rev', 'concat:oA+B:copy',
+                    'concat:oA.copy+B', 'concat:oA[0:]+B', 'concat:oA.take+B', 'concat:ooA+B',
+                    'concat:oA[1:]+B', 'oA:plain', 'oA:slice:take']
+
+
+def build_history(kind, st, elsA, elsB, variant):
+    import pandas as pd
+    cls = G.array_class(kind)
+    A, B = G.make_array(kind, elsA, st), G.make_array(kind, elsB, st)
+    oA = A.oriented()
+    cat = cls._concat_same_type
+    if variant == 'concat:oA+B':
+        return cat([oA, B])
+    if variant == 'concat:B+oA':
+        return cat([B, oA])
+    if variant == 'concat:oA+B+oA':
+        return cat([oA, B, oA])
+    if variant == 'pd.concat:oA+B':
+        return pd.concat([pd.Series(oA), pd.Series(B)], ignore_index=True).values
+    if variant == 'dask:oA+B':
+        import dask.dataframe as dd
+        from spatialpandas import GeoSeries
+        return dd.from_pandas(GeoSeries(cat([oA, B])), npartitions=2).compute().values
+    if variant == 'dask.concat:oA+B':
+        import dask.dataframe as dd
+        from spatialpandas import GeoSeries
+        return dd.concat([dd.from_pandas(GeoSeries(oA), npartitions=1),
+                          dd.from_pandas(GeoSeries(B), npartitions=1)]).compute().values
+    if variant == 'concat:oA+B:slice1':
+        return cat([oA, B])[1:]
+    if variant == 'concat:oA+B:rev':
+        r = cat([oA, B])
+        return r.take(np.arange(len(r))[::-1])
+    if variant == 'concat:oA+B:copy':
+        return cat([oA, B]).copy()
+    if variant == 'concat:oA.copy+B':
+        return cat([oA.copy(), B])
+    if variant == 'concat:oA[0:]+B':
+        return cat([oA[0:], B])
+    if variant == 'concat:oA.take+B':
+        return cat([oA.take(np.arange(len(oA))), B])
+    if variant == 'concat:ooA+B':
+        return cat([oA.oriented(), B])
+    if variant == 'concat:oA[1:]+B':
+        return cat([oA[1:], B])
+    if variant == 'oA:plain':
+        return oA
+    if variant == 'oA:slice:take':
+        return oA[1:].take(np.arange(max(len(oA) - 1, 0)))
+    raise ValueError(variant)
+
+
+def history_inputs():
+    """(kind, A elements, B elements): A mixes windings, B is entirely un-oriented
+    (clockwise shells, counter-clockwise holes)"""
+    ccw = valid_polygon(False, (False, False), 0)
+    cw = valid_polygon(True, (True, True), 0)            # cw shell, ccw holes
+    mixed = valid_polygon(True, (False,), 0)
+    tri_cw = [U.flat([(0, 0), (3, 4), (3, 0), (0, 0)])]
+    out = [('polygon', [cw, None, ccw, mixed], [cw, tri_cw, None]),
+           ('polygon', [ccw], [tri_cw, cw]),
+           ('polygon', [None, tri_cw], [[], cw, None])]
+    mp = lambda *ps: [list(p) for p in ps]
+    out += [('multipolygon', [mp(cw, valid_polygon(True, (True,), 20)), None, mp(ccw)],
+             [mp(tri_cw, valid_polygon(True, (True,), 20)), None, mp(cw)]),
+            ('multipolygon', [mp(ccw)], [mp(cw), mp(tri_cw)]),
+            ('multipolygon', [None, mp(mixed)], [[], mp(cw, tri_cw)])]
+    return out
+
+
+def run_histories(rep, batch):
+    for kind, elsA, elsB in history_inputs():
+        for st in ('float64', 'int32'):
+            for variant in HISTORY_VARIANTS:
+                meta = {'kind': kind, 'subtype': st, 'elements': elsB,
+                        'history': {'A': elsA, 'B': elsB, 'variant': variant}}
+                try:
+                    arr = build_history(kind, st, elsA, elsB, variant)
+                except Exception as e:
+                    rep.count(f'history-unavailable:{variant.split(":")[0]}:{type(e).__name__}')
+                    continue
+                rep.count('history')
+                check_oriented_arr(rep, batch, kind, st, arr, meta)
+
+
 def run(rep):
     tier = getattr(rep, 'tier_run', rep.tier)
     rep.rule = ('polygon arrays: every tuple of 0..3 ring shapes (4 windable rings incl. a 7-vertex L, 7 '
@@ -449,7 +556,9 @@ def run(rep):
                 '+ missing / empty elements, 0-2 derivation steps (slice/take/rotate/mask/reverse), 5 '
                 'subtypes; multipolygon arrays: 0..3 parts drawn from the 0..2-ring polygons; valid shapes '
                 '(holes inside shell, disjoint parts) with all 2^(1+holes) patterns for the intersection '
-                'comparison on a half-integer point grid and 40 boxes; random closed rings; non-trivial = '
+                'comparison on a half-integer point grid and 40 boxes; random closed rings; histories: '
+                'already-oriented pieces concatenated with un-oriented ones (_concat_same_type, pd.concat, '
+                'Dask), their slices / takes / copies, then the full checks; non-trivial = '
                 'at least one ring reversed; distinct = distinct (kind, subtype, exported buffers)')
     batch = Ctx()
     import numba
@@ -461,6 +570,7 @@ def run(rep):
                 check_oriented(rep, batch, kind, st, els, desc=nder, intersections=inter)
             else:
                 check_oriented(rep, batch, kind, st, els, nder, intersections=inter)
+        run_histories(rep, batch)
     finally:
         numba.set_num_threads(nthreads)
     batch.flush(rep)
@@ -471,8 +581,14 @@ def run(rep):
 def replay(rep, rp):
     batch = Ctx()
     els = U.unjson(rp['elements'])
-    check_oriented(rep, batch, rp['kind'], rp['subtype'], els, desc=rp.get('derivation') or [],
-                   intersections='probe' in rp)
+    if rp.get('history'):
+        h = rp['history']
+        arr = build_history(rp['kind'], rp['subtype'], U.unjson(h['A']), U.unjson(h['B']), h['variant'])
+        check_oriented_arr(rep, batch, rp['kind'], rp['subtype'], arr,
+                           {k: rp[k] for k in ('kind', 'subtype', 'elements', 'history')})
+    else:
+        check_oriented(rep, batch, rp['kind'], rp['subtype'], els, desc=rp.get('derivation') or [],
+                       intersections='probe' in rp)
     batch.flush(rep)
     for v in rep.violations:
         print(v['signature'], '-', v['what'])
